@@ -123,7 +123,7 @@ pub fn run_mem_family(ctx: &Ctx, fam: &MemFamily) -> Stats {
                 return;
             }
             // fillers: ASCII always; multi-byte fillers for some lengths
-            let fillers: &[usize] = if len % 4 == 0 { &[0, 1, 2, 3] } else { &[0] };
+            let fillers: &[usize] = if len % 4 == 0 { &[0, 1, 2, 3, 4, 5] } else if len % 4 == 1 { &[0, 4] } else if len % 4 == 2 { &[0, 5] } else { &[0] };
             for &fk in fillers {
                 let nclasses = if u16src { memgen::PLANT16.len() } else if latin1 { memgen::PLANT_LATIN1.len() } else { memgen::PLANT8.len() };
                 for cls in 0..=nclasses {
@@ -148,7 +148,13 @@ pub fn run_mem_family(ctx: &Ctx, fam: &MemFamily) -> Stats {
                             if cls < nclasses && pos < len {
                                 v[pos] = memgen::PLANT_LATIN1[cls];
                             }
-                            if fk != 0 {
+                            if fk >= 4 {
+                                for (i, b) in v.iter_mut().enumerate() {
+                                    if i != pos {
+                                        *b = if fk == 4 { b' ' } else { b", .0;-\r\n"[i % 8] };
+                                    }
+                                }
+                            } else if fk != 0 {
                                 for (i, b) in v.iter_mut().enumerate() {
                                     if i != pos && i % (fk + 1) == 0 {
                                         *b = 0xE9;
@@ -253,11 +259,13 @@ pub fn run_mem_family(ctx: &Ctx, fam: &MemFamily) -> Stats {
                 if fw::should_stop() {
                     return;
                 }
+                // ASCII filler: letters, spaces or punctuation, by length
+                let lfk = [0usize, 4, 5][li % 3];
                 for cls in 0..=nclasses {
                     let positions: Vec<usize> = if cls == nclasses { vec![0] } else { super::valfam::long_positions(len) };
                     for pos in positions {
                         let (src8, src16) = if u16src {
-                            (vec![], if cls == nclasses { memgen::filler16(0, len) } else { memgen::plant16(0, len, pos, memgen::PLANT16[cls]) })
+                            (vec![], if cls == nclasses { memgen::filler16(lfk, len) } else { memgen::plant16(lfk, len, pos, memgen::PLANT16[cls]) })
                         } else if latin1 {
                             let mut v = memgen::filler8(0, len);
                             if cls < nclasses {
@@ -265,7 +273,7 @@ pub fn run_mem_family(ctx: &Ctx, fam: &MemFamily) -> Stats {
                             }
                             (v, vec![])
                         } else {
-                            (if cls == nclasses { memgen::filler8(0, len) } else { memgen::plant8(0, len, pos, memgen::PLANT8[cls]) }, vec![])
+                            (if cls == nclasses { memgen::filler8(lfk, len) } else { memgen::plant8(lfk, len, pos, memgen::PLANT8[cls]) }, vec![])
                         };
                         let (sa, da) = fam.aligns[(pos + li) % fam.aligns.len()];
                         let mut base = MemCase { f, src8, src16, dst_len: 0, src_align: sa, dst_align: da, fill: [0xA5, 0x00, 0xFF, 0x02][(pos + li) & 3] };
